@@ -157,6 +157,26 @@ def run(tier, seed):
             if not np.array_equal(rho0, keep) or not snaps_equal(one_, two_):
                 bad.append(dict(failed="repeating a run with the same initial conditions yields identical snapshots (the same density-matrix array object handed to two %s runs: the caller's array was %s)" % (cls_.__name__, "modified" if not np.array_equal(rho0, keep) else "left alone but the runs differ"),
                                 case=dict(cls=cls_.__name__, integrator=integ_)))
+    # (a4) zero is a seed like any other: directly on the classes and on the command line
+    for cls_ in (mudslide.TrajectorySH, mudslide.TrajectoryCum, mudslide.AugmentedFSSH):
+        for sd0 in (0, np.int64(0)):
+            runs_ = [trace_dump(cls_(M["dual"](), [-3.0], [14.0], 0, dt=10.0, max_steps=60, seed_sequence=sd0).simulate()) for _ in range(2)]
+            res.count("seed-zero/class"); res.case(("seed0", cls_.__name__, type(sd0).__name__), True)
+            if not snaps_equal(runs_[0], runs_[1]):
+                bad.append(dict(failed="repeating a run with the same seeds yields identical snapshots (seed_sequence=%r of type %s given to %s)" % (sd0, type(sd0).__name__, cls_.__name__), case=dict(cls=cls_.__name__)))
+    import io, pickle, tempfile, mudslide.__main__ as mm_
+    for meth_ in ("fssh", "cumulative-sh"):
+        outs_ = []
+        with tempfile.TemporaryDirectory() as td_:
+            for rep_ in range(2):
+                b_ = io.StringIO(); pf_ = os.path.join(td_, "r%d.pickle" % rep_)
+                mm_.main(["-a", meth_, "-m", "dual", "-n", "1", "-k", "14", "14", "-s", "3", "-z", "0", "-x", "-4", "-b", "4.5", "-o", "pickle", "-O", pf_], file=b_)
+                with open(pf_, "rb") as fh_:
+                    r_ = pickle.load(fh_)
+                outs_.append([trace_dump(t_) for t_ in r_[0][1].traces])
+        res.count("seed-zero/cli")
+        if len(outs_[0]) != len(outs_[1]) or not all(snaps_equal(a_, b_) for a_, b_ in zip(outs_[0], outs_[1])):
+            bad.append(dict(failed="repeating a run with the same seeds yields identical snapshots (command line -a %s with -z 0, run twice)" % meth_, case=dict(args="-z 0", method=meth_)))
     # (c) seed keys: generator spawn + even-sampling clones
     for it in range(nrep * 3):
         key = [rng.randrange(5) for _ in range(rng.randint(0, 3))]
@@ -227,6 +247,8 @@ def run(tier, seed):
         c.restarting = True; c.simulate()
         if not snaps_equal(trace_dump(tr.tracer), trace_dump(c.tracer)):
             bad.append(dict(failed="a clone taken at any step evolves exactly as the original does from that step", case=info))
+        elif cls == "afssh" and not (np.array_equal(tr.delR, c.delR) and np.array_equal(tr.delP, c.delP)):
+            bad.append(dict(failed="a clone taken at any step evolves exactly as the original does from that step (the A-FSSH moments of clone and original differ after the same continuation: max |delR - delR'| = %.3g)" % float(np.max(np.abs(tr.delR - c.delR))), case=info))
         res.count("clone/" + cls); res.case(("clone", cls, mname, nst), True, info)
     f1, e1 = run_case_check("C12k", PRELUDE, "list nat * list nat * list (list (list nat))", "chk12k", kc, per_file=400)
     f2, e2 = run_case_check("C12d", PRELUDE, "list float * list float * nat * list float", "chk12d", dc, per_file=400)
